@@ -22,6 +22,9 @@ class HealthFamily(Family):
 
     conc = ConcFamily("C18", "health")
 
+    def race_select(self, cases, tier):
+        return self.conc.race_select([c for c in cases if "threads" in c], tier)
+
     def modes_for(self, c):
         if "threads" in c:
             return (["conc"], ["conc"])
